@@ -1,16 +1,60 @@
 """Claims per property (MANIFEST text)."""
-_TB = ('trusted: g++ 12.2 / clang 14 code generation, the CPU (Sapphire Rapids) as executor of every x86 branch, '
-       'the scalar reference models written from the property statement; ARM/MSVC/AVX10 branches are not reachable here')
+_TB = ('trusted: g++ 12.2 / clang 14 code generation (built with -frounding-math -ffp-contract=off), this CPU (Sapphire Rapids) as executor of every x86 branch, '
+       'the scalar reference models written from the property statement, glibc libm where the statement names the C library; '
+       'ARM/NEON, MSVC/ICPX and AVX10 branches are not reachable here and not claimed')
+_T = 'runtime reference-model monitor over exhaustive/lattice/random inputs x ladder cover of feature-macro configurations (g++/clang++), + ASan/UBSan builds and trap capture'
+
+
+def _c(text, ref, technique=_T, note=_TB):
+    return {'text': text + ' Held-on-observed-executions, not proof.', 'design_ref': 'DESIGN.md section 3 ' + ref, 'note': note, 'technique': technique}
+
+
 CLAIMED = {
-    'C01': {
-        'text': ('Held on every execution observed: every integer vector type x op is run natively under a ladder cover of '
-                 'feature-macro configurations (g++ and clang++, plus ASan+UBSan builds) on exhaustive 8-bit pairs, all 16-bit values x '
-                 'lattice, boundary lattice^2 and structured random 32/64-bit pairs, each lane compared with a mod-2^bits model while '
-                 'the other lanes hold unrelated values. Runtime exploration, not proof.'),
-        'design_ref': 'DESIGN.md section 3 C01', 'note': _TB,
-        'technique': 'runtime reference-model monitor over exhaustive/lattice/random inputs x configuration cover, + ASan/UBSan',
-    },
+    'C01': _c('Every integer vector type x {+,-,*,unary -,++/--, compound forms} is executed natively under every configuration of a ladder cover of the anchored headers; all 8-bit pairs, all 16-bit values x lattice, '
+              'boundary lattice^2 + structured random 32/64-bit pairs; every lane compared with a mod-2^bits model while neighbouring lanes hold unrelated values; UBSan builds check "never undefined".', 'C01'),
+    'C02': _c('Integer and float comparisons in every configuration of the cover: exact boolean per lane against the C++ scalar comparison (NaN, signed zeros, equal-high-half 64-bit pairs, sign boundaries), '
+              'masks observed through Vector(mask) and cross-checked with count/any/all/none.', 'C02'),
+    'C03': _c('All 40 mask types: every 2^N pattern for N<=16 (pairs exhaustive for N<=8), structured+random for N=32/64; every operator, insert<I>(m,b) for every I and both b, extract<I>, conversions; '
+              'results observed three ways (Vector(mask), count/any/all/none, ==) so unused k-register bits are visible.', 'C03'),
+    'C04': _c('Bitwise ops; shifts by every amount 0..bits (scalar, per-lane vector with different amounts per lane, compile-time S for every S); rotations by every amount incl. negative, >= bits, +-2^31, +-2^40, LLONG_MIN/MAX and '
+              'compile-time S up to 4*bits+1; 8/16-bit exhaustive in values; UBSan shift reports in AVEL are violations.', 'C04'),
+    'C05': _c('div, /, %, /=, %= against C++ truncating division incl. identity q*y+r==x; division-specific pairs (multiples +-1 near range ends, q*d+r); zero divisors planted in every other lane position with SIGFPE capture; '
+              '(MIN,-1) and width-1 zero divisors never generated.', 'C05'),
+    'C06': _c('popcount/countl_*/countr_*/bit_width/bit_floor/bit_ceil/has_single_bit/byteswap/countl_sign for vectors and scalar overloads against bit-loop models: 8/16-bit exhaustive, 64-bit every 1-bit/2-bit/mask pattern; '
+              'scalar overloads additionally as fold probes (constant arguments at -O2) and under UBSan.', 'C06'),
+    'C07': _c('blend/keep/clear/negate with all mask patterns, min/max/minmax/clamp(lo<hi), abs/neg_abs, average (toward zero, __int128 model), midpoint (std::midpoint model) for ints; floats: bit-pattern rules for '
+              'blend/keep/clear/abs/neg_abs/negate/copysign, value rule for min/max/clamp on non-NaN inputs.', 'C07'),
+    'C08': _c('load/aligned_load/store/aligned_store for every n in 0..width+2 and large n, run-time and every compile-time N, unaligned offsets, sentinel-checked destinations, gather/scatter with negative/repeated indices, '
+              'array round trip against the raw primitive, extract/insert for every lane; trap capture turns faults into records.', 'C08'),
+    'C09': _c('Footprint monitor: guard arena with PROT_NONE pages flush against the addressed range on either side (n==0: pointer inside the inaccessible page), sentinel re-check of the data pages, wild indices in inactive gather/scatter lanes; '
+              'plus exact-size heap blocks under AddressSanitizer. Executed on real silicon so hardware fault suppression of masked moves is what is observed.', 'C09',
+              technique='guard-page + sentinel monitor with signal capture, AddressSanitizer on exact-size heap blocks, x configuration cover'),
+    'C10': _c('+,-,*,/ (binary, compound, ++/--) and sqrt under all four rounding modes, bit-identical (NaN~NaN) to the same operation on volatile scalars executed by the scalar FP unit under the same mode; unary minus = exact sign-bit flip.', 'C10'),
+    'C11': _c('ceil/floor/trunc/round/nearbyint/rint bit-identical (NaN~NaN) to glibc (called through volatile function pointers) under each rounding mode; FP-environment clause: MXCSR control bits + x87 control word + fegetround() '
+              'snapshotted around every call of the float drivers and of a ~90-operation sweep per vector type run under five non-default environments.', 'C11',
+              technique='reference-model monitor against libm + MXCSR/x87 control-word snapshot monitor around every call, x configuration cover, + ASan/UBSan'),
+    'C12': _c('frexp/ldexp/scalbn/ilogb/logb/frac/fmax/fmin/fdim with comparison rules taken from the statement (not blindly libm): exponents from INT_MIN to INT_MAX around every range boundary; sNaN operands of fmax/fmin, '
+              'NaN/equal-infinity operands of fdim excluded as unspecified. One open known finding (ldexp emulation for |e| >= 2*bias-1).', 'C12'),
+    'C13': _c('fpclassify/isnan/isinf/isfinite/isnormal/signbit and the six quiet comparisons: exact booleans/categories against the C library for lattice (every exponent, both NaN kinds, both signs) + random patterns.', 'C13'),
+    'C14': _c('Scalar Denominator<T>: all (n,d) for 8-bit, all d x boundary numerators for 16-bit, powers of two +-1/extremes/primes/random d for 32/64-bit x multiples of d nearest both range ends +-2; div,/,%,/=,%=,value(); '
+              'construction and use under SIGFPE capture; fold probes with constant divisors (g++ and clang++ -O2/-O0/-O3); UBSan.', 'C14'),
+    'C15': _c('Vector Denominators with a different divisor in every lane and the broadcast constructor from every scalar Denominator of the C14 divisor sets; value(); API availability through the detection idiom.', 'C15'),
+    'C16': _c('Differential monitor scalar overload vs lane of the vector function for every provided pair (bit functions, rotations, min/max/clamp, abs/neg_abs/negate, average/midpoint, keep/clear/blend, float family), across scalar feature sets '
+              '{none,X86,POPCNT,LZCNT,BMI,BMI2} x vector configurations; cmp_* against __int128 comparison. One open known finding inherited from C12.', 'C16',
+              technique='differential runtime monitor (scalar overload vs vector lanes) + exact mixed-sign comparison model, x configuration cover, + UBSan'),
+    'C17': _c('Every rule-derived mandatory conversion (identity, signed<->unsigned for each integer vector/mask type) plus every other convert<To,From> found by scanning the current tree: static_cast per lane, converting constructors agree, '
+              'avel::bit_cast byte-compared, mask truth values per lane; a missing mandatory specialisation shows as a link failure and is reported.', 'C17'),
+    'C18': _c('Allocator histories (random + enumerated + container workloads) for 7 element sizes x 6 alignments x 3 implementations (mm_malloc / aligned_alloc / over-allocation) under four monitors: shadow map of live ranges, '
+              'full-range pattern integrity, malloc event log by interposition (containment, exact frees, conservation, no leak), and ASan/LSan/UBSan builds.', 'C18',
+              technique='history monitors (shadow map, pattern integrity, interposed malloc/free event log with conservation check) + ASan/LSan/UBSan'),
+    'C19': _c('Observed toolchain executions over the configuration matrix (each macro, chain prefixes, sub-extensions with VL/BW, explicit and AUTO_DETECT, g++/clang++, C++11..20), a type-system reporter built and run per configuration and '
+              'compared with the documented table, and an API closure program (SFINAE probe + odr-use + smoke run of ~190 operations per type). Exploration over configurations, not a sanitizer result. One open known finding (fmod family).', 'C19',
+              technique='compile/link/run exploration over the configuration lattice with parsed diagnostics, run-time type-system report vs documented table, SFINAE API-closure probe'),
+    'C20': _c('prefetch_read/prefetch_write for every level and overload with pointers at every offset of a line next to, straddling and inside inaccessible pages, null/misaligned/top-of-address-space pointers, n from 0 to 3 pages; '
+              'signals captured, read-only arena + snapshot compare; line sizes 64/32-128/128, -O0/-O2, g++/clang++, ASan build.', 'C20',
+              technique='guard-page / read-only-page monitor with signal capture and memory snapshot comparison, + ASan'),
 }
 NOT_APPLICABLE = {}
-NOTES = ('All checks are runtime monitors/sanitizers over executions of the real headers compiled from /repo. '
-         'bin/vcheck check <id> exits 0 (held / only KNOWN-FINDING lines), 1 (VIOLATION lines), 2 (inconclusive harness failure).')
+NOTES = ('All checks are runtime monitors/sanitizers over executions of the real headers compiled from /repo/include (current working tree; build cache keyed by a hash of the tree). '
+         'bin/vcheck check <id> exits 0 (held; KNOWN-FINDING lines for entries of known_findings.json with status open), 1 (VIOLATION lines with replay files), 2 (inconclusive harness failure). '
+         'No hooks in AVEL are needed. 29 genuine defects were repaired as "fix:" commits in /repo (listed as fixed in known_findings.json); 3 entries remain open.')
